@@ -63,3 +63,431 @@ Proof.
   all: try (destruct bytes_ as [?|?|?|]; try contradiction; try discriminate; wfin; destruct text; try discriminate; wfin).
 Qed.
 End WInv.
+
+(* ================================================================ C11: handshake and lifecycle *)
+Definition has_upgrade_token (toks : list bytes) : bool := existsb (fun t => beqb (lower t) (B "upgrade")) toks.
+
+(* Handshake.is_valid, characterised *)
+Lemma is_valid_iff h :
+  hk_upgrade h <> None ->
+  (is_valid h = Ok true <->
+   (hk_http_version h = B "1.1" /\ hk_key h <> None /\
+    (exists toks, hk_tokens h = Some toks /\ has_upgrade_token toks = true) /\
+    (exists u, hk_upgrade h = Some u /\ lower u = B "websocket") /\ hk_wsversion h = Some (B "13"))
+   \/
+   (bytes_ltb (hk_http_version h) (B "1.1") = false /\ hk_http_version h <> B "1.1" /\ hk_wsversion h = Some (B "13"))).
+Proof.
+  intro HU. unfold is_valid, has_upgrade_token.
+  destruct (bytes_ltb (hk_http_version h) (B "1.1")) eqn:LT.
+  - split; [discriminate|]. intros [(V & _)|(L & _)]; [rewrite V in LT; discriminate|congruence].
+  - destruct (beqb (hk_http_version h) (B "1.1")) eqn:E11.
+    + apply beqb_eq in E11. split.
+      * intro H. left. split; [exact E11|].
+        destruct (hk_key h) as [k|]; [|discriminate]. split; [discriminate|].
+        destruct (hk_tokens h) as [toks|]; [|discriminate].
+        destruct (existsb _ toks) eqn:EX; [|discriminate]. cbn [negb] in H.
+        split; [exists toks; auto|].
+        destruct (hk_upgrade h) as [u|]; [|discriminate].
+        destruct (beqb (lower u) (B "websocket")) eqn:EU; [|discriminate]. cbn [negb] in H.
+        split; [exists u; split; [reflexivity|apply beqb_eq; exact EU]|].
+        destruct (hk_wsversion h) as [v|]; [|discriminate].
+        destruct (beqb v (B "13")) eqn:EV; [|discriminate]. apply beqb_eq in EV. subst. reflexivity.
+      * intros [(_ & K & (toks & T & X) & (u & U & UL) & W)|(_ & N & _)]; [|congruence].
+        destruct (hk_key h); [|congruence]. rewrite T, X, U, W. simpl.
+        rewrite UL. reflexivity.
+    + apply beqb_neq in E11. split.
+      * intro H. right. repeat split; auto.
+        destruct (hk_wsversion h) as [v|]; [|discriminate].
+        destruct (beqb v (B "13")) eqn:EV; [|discriminate]. apply beqb_eq in EV. subst. reflexivity.
+      * intros [(V & _)|(_ & _ & W)]; [congruence|]. rewrite W. reflexivity.
+Qed.
+
+(* HTTP/1.0 (and anything older than 1.1) is never a valid WebSocket handshake *)
+Lemma http10_never_valid h : hk_http_version h = B "1.0" -> is_valid h = Ok false.
+Proof. intro V. unfold is_valid. rewrite V. reflexivity. Qed.
+
+(* Handshake.accept, characterised *)
+Lemma accept_faithful h token ext sub extra st hs :
+  hk_accept h token ext sub extra = Ok (st, hs) ->
+  st = (if beqb (hk_http_version h) (B "1.1") then 101 else 200)%Z /\
+  (forall sp, sub = Some sp -> exists subs, hk_subs h = Some subs /\ existsb (beqb sp) subs = true) /\
+  hs = ((match sub with Some sp => [(B "sec-websocket-protocol", sp)] | None => [] end)
+       ++ (match hk_exts h, ext with Some _, Some (c :: a) => [(B "sec-websocket-extensions", c :: a)] | _, _ => [] end)
+       ++ (match hk_key h with Some _ => [(B "sec-websocket-accept", token)] | None => [] end)
+       ++ (if beqb (hk_http_version h) (B "1.1") then [(B "upgrade", B "WebSocket"); (B "connection", B "Upgrade")] else [])
+       ++ extra)%list /\
+  forallb (fun x => negb (beqb (lower (fst x)) (B "sec-websocket-protocol")) && negb (starts_with (B ":") (fst x))) extra = true.
+Proof.
+  unfold hk_accept. intro H.
+  assert (S : (match sub with
+               | None => Ok []
+               | Some sp => match hk_subs h with
+                            | Some subs => if existsb (beqb sp) subs then Ok [(B "sec-websocket-protocol", sp)] else Raise EException
+                            | None => Raise EException end
+               end = Ok (match sub with Some sp => [(B "sec-websocket-protocol", sp)] | None => [] end)) /\
+              (forall sp, sub = Some sp -> exists subs, hk_subs h = Some subs /\ existsb (beqb sp) subs = true)).
+  { destruct sub as [sp|]; [|split; [reflexivity|discriminate]].
+    destruct (hk_subs h) as [subs|]; [|discriminate].
+    destruct (existsb (beqb sp) subs) eqn:E; [|discriminate].
+    split; [reflexivity|]. intros sp' Hs. injection Hs as <-. eauto. }
+  destruct S as [S1 S2]. rewrite S1 in H.
+  destruct (existsb (fun x : bytes * bytes => beqb (lower (fst x)) (B "sec-websocket-protocol") || starts_with (B ":") (fst x)) extra) eqn:EX;
+    [discriminate|]. injection H as <- <-.
+  repeat split; auto.
+  - f_equal. f_equal. destruct (hk_exts h); destruct ext as [[|c a]|]; reflexivity.
+  - rewrite forallb_forall. intros x Hx.
+    assert (N := EX). rewrite <- not_true_iff_false in N.
+    destruct (beqb (lower (fst x)) (B "sec-websocket-protocol") || starts_with (B ":") (fst x)) eqn:E.
+    + exfalso. apply N. apply existsb_exists. exists x. auto.
+    + apply orb_false_iff in E as [-> ->]. reflexivity.
+Qed.
+
+(* a subprotocol that was not offered is refused, whatever else the accept carries *)
+Lemma accept_unoffered_refused h token ext sp extra :
+  (match hk_subs h with Some subs => existsb (beqb sp) subs | None => false end) = false ->
+  hk_accept h token ext (Some sp) extra = Raise EException.
+Proof. unfold hk_accept. intro H. destruct (hk_subs h) as [subs|]; [rewrite H|]; reflexivity. Qed.
+
+Section WLife.
+Variables (names : list bytes) (ssl : bool) (maxm : Z) (ping : bool).
+Variables (id : Z) (token : bytes) (ext : option bytes) (sends : list (option bytes)).
+Let cfg := the_wcfg names ssl maxm ping.
+Let fresh := new_wrig id token ext sends [] true.
+
+Ltac wexec := cbv -[validate_headers suppress_body body_bytes headers_ok forallb hk_accept map filter app B v_of_wssend
+                    new_handshake is_valid valid_server_name partition1 is_ascii pct_decode].
+
+(* the request either raises (malformed header list / path), or is answered 404 / 400 with no
+   application started, or starts exactly one application whose first message is websocket.connect *)
+Lemma ws_request_outcome hs version raw_path :
+  let '(r', o, res) := wrig_step cfg (WIHandle (WRequest hs version raw_path)) fresh in
+  match new_handshake hs version with
+  | Raise e => o = [] /\ res = Raise e
+  | Ok hk =>
+      if negb (is_ascii (fst (fst (partition1 63 raw_path)))) then o = [] /\ res = Raise EUnicodeDecode
+      else if negb (valid_server_name (the_cfg names ssl) hs) then
+        o = [OSend id (EvResponse 404 [(B "content-length", B "0"); (B "connection", B "close")]); OSend id EvEndBody; OLogAccess (Some 404%Z)]
+        /\ ws_closed (wg_stream r') = true /\ ws_has_app (wg_stream r') = false
+      else match is_valid hk with
+           | Raise e => o = [] /\ res = Raise e
+           | Ok false =>
+               o = [OSend id (EvResponse 400 [(B "content-length", B "0"); (B "connection", B "close")]); OSend id EvEndBody; OLogAccess (Some 400%Z)]
+               /\ ws_closed (wg_stream r') = true /\ ws_has_app (wg_stream r') = false
+           | Ok true =>
+               exists sc, o = [OSpawn id sc; OPut id RWsConnect] /\ res = Ok tt /\ ws_has_app (wg_stream r') = true
+                          /\ sc_subprotocols sc = match hk_subs hk with Some l => l | None => [] end
+           end
+  end.
+Proof.
+  unfold fresh, cfg, new_wrig, new_wstream. wexec.
+  destruct (new_handshake hs version) as [hk|e]; [|split; reflexivity].
+  destruct (partition1 63 raw_path) as [[path f] q]. cbn [fst].
+  destruct (is_ascii path); cbn [negb]; [|split; reflexivity].
+  destruct (valid_server_name _ hs); cbn [negb]; [|repeat split; reflexivity].
+  destruct (is_valid hk) as [[|]|e]; [|repeat split; reflexivity|split; reflexivity].
+  eexists. repeat split; reflexivity.
+Qed.
+End WLife.
+
+(* the disconnect code: 1000 after the application's own close (or HTTP denial), the client's
+   code after a client-initiated close, 1006 when the connection was simply lost *)
+Lemma disconnect_code (r : wrig) :
+  ws_closed (wg_stream r) = false -> ws_has_app (wg_stream r) = true ->
+  let '(r', o, res) := ws_stream_closed wrig_get wrig_set r in
+  o = [OPut (ws_id (wg_stream r))
+            (RWsDisconnect (if ws_idle (wg_stream r) then 1000
+                            else match ws_close_code (wg_stream r) with Some c => c | None => 1006 end)%Z)]
+  /\ ws_closed (wg_stream r') = true.
+Proof.
+  destruct r as [[id closed st has_app hk has_conn buf cc resp token ext sends] reacts auto]. simpl.
+  intros -> ->. cbv -[ws_idle]. split; reflexivity.
+Qed.
+
+(* ... and a second closure delivers nothing: exactly one disconnect *)
+Lemma disconnect_once (r : wrig) :
+  ws_closed (wg_stream r) = true -> ws_stream_closed wrig_get wrig_set r = (r, [], Ok tt).
+Proof.
+  destruct r as [[id closed st has_app hk has_conn buf cc resp token ext sends] reacts auto]. simpl.
+  intros ->. reflexivity.
+Qed.
+
+(* ================================================================ C10: message reassembly and limit *)
+Fixpoint puts (o : list out) : list rmsg :=
+  match o with [] => [] | OPut _ m :: r => m :: puts r | _ :: r => puts r end.
+Definition is_pong (x : out) : list bytes :=
+  match x with
+  | OLib (a :: b :: VB p :: nil) => if val_eqb a (VS "ws.send") && val_eqb b (VS "pong") then [p] else []
+  | _ => []
+  end.
+Definition pongs (o : list out) : list bytes := flat_map is_pong o.
+
+Lemma puts_app a b : puts (a ++ b)%list = (puts a ++ puts b)%list.
+Proof. induction a as [|x r IH]; [reflexivity|]. destruct x; simpl; rewrite ?IH; reflexivity. Qed.
+
+Definition extend (b : wsbuffer) (t : bool) (d : bytes) : wsbuffer :=
+  {| wb_started := true; wb_text := if wb_started b then wb_text b else t;
+     wb_data := (wb_data b ++ d)%list; wb_length := (wb_length b + Zlen d)%Z |}.
+
+(* what a sequence of received events delivers, as a pure function of the buffer *)
+Fixpoint deliveries (b : wsbuffer) (evs : list wsevent) : list rmsg :=
+  match evs with
+  | [] => []
+  | WMessage t d fin :: r =>
+      let b' := extend b t d in
+      if fin then RWsReceive (wb_text b') (wb_data b') :: deliveries wb_empty r else deliveries b' r
+  | _ :: r => deliveries b r
+  end.
+Fixpoint final_buf (b : wsbuffer) (evs : list wsevent) : wsbuffer :=
+  match evs with
+  | [] => b
+  | WMessage t d fin :: r => if fin then final_buf wb_empty r else final_buf (extend b t d) r
+  | _ :: r => final_buf b r
+  end.
+Fixpoint ping_payloads (evs : list wsevent) : list bytes :=
+  match evs with [] => [] | WPing p :: r => p :: ping_payloads r | _ :: r => ping_payloads r end.
+(* no message in the sequence ever makes the accumulated length exceed the limit; no close frame *)
+Fixpoint fits (max : Z) (b : wsbuffer) (evs : list wsevent) : bool :=
+  match evs with
+  | [] => true
+  | WMessage t d fin :: r =>
+      let b' := extend b t d in
+      (wb_length b' <=? max)%Z && fits max (if fin then wb_empty else b') r
+  | WClose _ _ _ :: _ => false
+  | _ :: r => fits max b r
+  end.
+
+Definition ws_ready (r : wrig) : Prop :=
+  wg_reacts r = [] /\ ws_has_app (wg_stream r) = true /\ ws_has_conn (wg_stream r) = true.
+
+Section C10.
+Variables (names : list bytes) (ssl : bool) (maxm : Z) (ping : bool).
+Let cfg := the_wcfg names ssl maxm ping.
+
+Definition rdy (id : Z) (closed : bool) (st : wstate) (hk : option handshake) (buf : wsbuffer) (cc : option Z)
+           (resp : option (option Z * list (hval * hval))) (token : bytes) (ext : option bytes) (sends : list (option bytes))
+           (auto : bool) : wrig :=
+  {| wg_stream := {| ws_id := id; ws_closed := closed; ws_state := st; ws_has_app := true; ws_hk := hk; ws_has_conn := true;
+                     ws_buffer := buf; ws_close_code := cc; ws_resp := resp; ws_token := token; ws_ext_accepts := ext; ws_sends := sends |};
+     wg_reacts := []; wg_auto_close := auto |}.
+
+Ltac wexec := cbv -[extend Z.gtb Z.leb app].
+
+Lemma one_message id closed st hk buf cc resp token ext sends auto t d fin :
+  (wb_length (extend buf t d) <=? maxm)%Z = true ->
+  ws_one_event cfg wrig_get wrig_set wrig_psend (WMessage t d fin) (rdy id closed st hk buf cc resp token ext sends auto) =
+  (rdy id closed st hk (if fin then wb_empty else extend buf t d) cc resp token ext sends auto,
+   (if fin then [OPut id (RWsReceive (wb_text (extend buf t d)) (wb_data (extend buf t d)))] else []),
+   Ok false).
+Proof.
+  destruct buf as [bs bt bd bl]. intro F.
+  assert (G : (bl + Zlen d >? maxm)%Z = false) by (apply Z.leb_le in F; cbn in F; lia).
+  assert (G0 : (bl >? maxm)%Z = false) by (apply Z.leb_le in F; cbn in F; pose proof (Zlen_nonneg d); lia).
+  unfold extend, rdy, cfg, the_wcfg. cbv -[Z.gtb Z.add Zlen app]. rewrite G0, G. destruct fin; reflexivity.
+Qed.
+
+Lemma one_pong id closed st hk buf cc resp token ext sends auto p :
+  ws_one_event cfg wrig_get wrig_set wrig_psend (WPong p) (rdy id closed st hk buf cc resp token ext sends auto) =
+  (rdy id closed st hk buf cc resp token ext sends auto, [], Ok false).
+Proof. reflexivity. Qed.
+
+Lemma one_ping id closed st hk buf cc resp token ext sends auto p :
+  exists o, ws_one_event cfg wrig_get wrig_set wrig_psend (WPing p) (rdy id closed st hk buf cc resp token ext sends auto) =
+            (rdy id closed st hk buf cc resp token ext (tl sends) auto, o, Ok false)
+            /\ puts o = [] /\ pongs o = [p].
+Proof. destruct sends as [|[sd|] rest]; eexists; (split; [reflexivity|split; reflexivity]). Qed.
+
+Lemma pongs_app a b : pongs (a ++ b)%list = (pongs a ++ pongs b)%list.
+Proof. apply flat_map_app. Qed.
+
+(* every event sequence that stays within the limit: deliveries are exactly the reassembled
+   messages, every ping is answered by a pong with its payload, in order *)
+Lemma handle_events_fit : forall evs id closed st hk buf cc resp token ext sends auto,
+  fits maxm buf evs = true ->
+  exists sends' o,
+    ws_handle_events cfg wrig_get wrig_set wrig_psend evs (rdy id closed st hk buf cc resp token ext sends auto) =
+    (rdy id closed st hk (final_buf buf evs) cc resp token ext sends' auto, o, Ok tt)
+    /\ puts o = deliveries buf evs /\ pongs o = ping_payloads evs.
+Proof.
+  induction evs as [|e rest IH]; intros id closed st hk buf cc resp token ext sends auto F.
+  - exists sends, []. repeat split; reflexivity.
+  - cbn [ws_handle_events]. unfold bind.
+    destruct e as [t d fin|p|p|code reason rc]; cbn [fits] in F.
+    + apply andb_true_iff in F as [F1 F2]. rewrite (one_message _ _ _ _ _ _ _ _ _ _ _ _ _ _ F1).
+      destruct fin.
+      * destruct (IH id closed st hk wb_empty cc resp token ext sends auto F2) as (s' & o & E & P1 & P2).
+        rewrite E. exists s'. eexists. split; [reflexivity|split].
+        -- rewrite puts_app, P1. reflexivity.
+        -- rewrite pongs_app, P2. reflexivity.
+      * destruct (IH id closed st hk (extend buf t d) cc resp token ext sends auto F2) as (s' & o & E & P1 & P2).
+        rewrite E. exists s'. eexists. split; [reflexivity|split].
+        -- rewrite puts_app, P1. reflexivity.
+        -- rewrite pongs_app, P2. reflexivity.
+    + destruct (one_ping id closed st hk buf cc resp token ext sends auto p) as (o1 & E1 & Q1 & Q2). rewrite E1.
+      destruct (IH id closed st hk buf cc resp token ext (tl sends) auto F) as (s' & o & E & P1 & P2).
+      rewrite E. exists s'. eexists. split; [reflexivity|split].
+      * rewrite puts_app, Q1, P1. reflexivity.
+      * rewrite pongs_app, Q2, P2. reflexivity.
+    + rewrite one_pong. destruct (IH id closed st hk buf cc resp token ext sends auto F) as (s' & o & E & P1 & P2).
+      rewrite E. exists s', o. repeat split; assumption.
+    + discriminate.
+Qed.
+End C10.
+
+(* ---------------------------------------------------------------- fragmentation *)
+(* a message = type flag + its fragments; each fragment may be preceded by pings *)
+Definition fragment := (list bytes * bytes)%type.
+Fixpoint frag_events (t : bool) (frags : list fragment) : list wsevent :=
+  match frags with
+  | [] => []
+  | (ps, f) :: r => map WPing ps ++ [WMessage t f (match r with [] => true | _ => false end)] ++ frag_events t r
+  end.
+Definition msg_events (m : bool * list fragment) : list wsevent := frag_events (fst m) (snd m).
+Definition payload (m : bool * list fragment) : bytes := concat (map snd (snd m)).
+Definition msg_pings (m : bool * list fragment) : list bytes := concat (map fst (snd m)).
+
+Lemma deliveries_pings b ps rest : deliveries b (map WPing ps ++ rest) = deliveries b rest.
+Proof. induction ps as [|p r IH]; [reflexivity|exact IH]. Qed.
+
+Lemma deliveries_frags t : forall frags b rest, frags <> [] ->
+  deliveries b (frag_events t frags ++ rest) =
+  RWsReceive (if wb_started b then wb_text b else t) (wb_data b ++ concat (map snd frags)) :: deliveries wb_empty rest.
+Proof.
+  induction frags as [|[ps f] r IH]; intros b rest NE; [contradiction|].
+  cbn [frag_events]. rewrite <- !app_assoc, deliveries_pings. cbn [app deliveries].
+  destruct r as [|f2 r2].
+  - cbn. rewrite app_nil_r. reflexivity.
+  - rewrite IH by discriminate. cbn [extend wb_started wb_text wb_data map concat snd].
+    rewrite <- app_assoc. destruct (wb_started b); reflexivity.
+Qed.
+
+(* C10: for every message sequence and every fragmentation (pings between fragments included),
+   each complete message is delivered exactly once, in order, with its type and payload *)
+Theorem reassembly (msgs : list (bool * list fragment)) :
+  Forall (fun m => snd m <> []) msgs ->
+  deliveries wb_empty (flat_map msg_events msgs) = map (fun m => RWsReceive (fst m) (payload m)) msgs.
+Proof.
+  induction msgs as [|m r IH]; intro F; [reflexivity|]. inversion F as [|? ? F1 F2]; subst.
+  cbn [flat_map map]. unfold msg_events at 1. rewrite deliveries_frags by exact F1. cbn [wb_empty wb_started wb_data app].
+  rewrite IH by exact F2. reflexivity.
+Qed.
+
+Lemma ping_payloads_app a b : ping_payloads (a ++ b) = (ping_payloads a ++ ping_payloads b)%list.
+Proof. induction a as [|x r IH]; [reflexivity|]. destruct x; simpl; rewrite ?IH; reflexivity. Qed.
+Lemma ping_payloads_pings ps : ping_payloads (map WPing ps) = ps.
+Proof. induction ps as [|p r IH]; [reflexivity|]. simpl. rewrite IH. reflexivity. Qed.
+
+Lemma ping_payloads_frags t frags : ping_payloads (frag_events t frags) = concat (map fst frags).
+Proof.
+  induction frags as [|[ps f] r IH]; [reflexivity|]. cbn [frag_events].
+  rewrite !ping_payloads_app, ping_payloads_pings. cbn [ping_payloads app map concat fst]. rewrite IH. reflexivity.
+Qed.
+
+(* every ping is answered: the pong payloads are the ping payloads, in order *)
+Theorem pings_answered (msgs : list (bool * list fragment)) :
+  ping_payloads (flat_map msg_events msgs) = concat (map msg_pings msgs).
+Proof.
+  induction msgs as [|m r IH]; [reflexivity|]. cbn [flat_map map concat].
+  rewrite ping_payloads_app, IH. unfold msg_events, msg_pings. rewrite ping_payloads_frags. reflexivity.
+Qed.
+
+(* lengths: a message fits iff its total size is within the limit *)
+Lemma fits_pings max b ps rest : fits max b (map WPing ps ++ rest) = fits max b rest.
+Proof. induction ps as [|p r IH]; [reflexivity|exact IH]. Qed.
+
+Lemma fits_frags max t : forall frags b rest, frags <> [] ->
+  (wb_length b + Zlen (concat (map snd frags)) <= max)%Z ->
+  fits max b (frag_events t frags ++ rest) = fits max wb_empty rest.
+Proof.
+  induction frags as [|[ps f] r IH]; intros b rest NE L; [contradiction|].
+  cbn [frag_events]. rewrite <- !app_assoc, fits_pings. cbn [app fits].
+  cbn [map concat snd] in L. rewrite Zlen_app in L.
+  pose proof (Zlen_nonneg (concat (map snd r))). pose proof (Zlen_nonneg f).
+  destruct r as [|f2 r2].
+  - cbn. assert ((wb_length b + Zlen f <=? max)%Z = true) as -> by (apply Z.leb_le; cbn in L; lia). reflexivity.
+  - cbn [extend wb_length].
+    assert ((wb_length b + Zlen f <=? max)%Z = true) as -> by (apply Z.leb_le; lia).
+    cbn [andb]. apply IH; [discriminate|]. cbn [extend wb_length]. lia.
+Qed.
+
+Theorem within_limit_fits max (msgs : list (bool * list fragment)) :
+  Forall (fun m => snd m <> [] /\ (Zlen (payload m) <= max)%Z) msgs ->
+  fits max wb_empty (flat_map msg_events msgs) = true.
+Proof.
+  induction msgs as [|m r IH]; intro F; [reflexivity|]. inversion F as [|? ? [F1 F1'] F2]; subst.
+  cbn [flat_map]. unfold msg_events at 1. rewrite fits_frags; [apply IH; exact F2|exact F1|exact F1'].
+Qed.
+
+(* ---------------------------------------------------------------- the size limit *)
+Fixpoint receives (o : list out) : list rmsg :=
+  match o with
+  | [] => []
+  | OPut _ (RWsReceive t p) :: r => RWsReceive t p :: receives r
+  | _ :: r => receives r
+  end.
+Lemma receives_app a b : receives (a ++ b)%list = (receives a ++ receives b)%list.
+Proof.
+  induction a as [|x r IH]; [reflexivity|]. destruct x as [? ?|? ?|? m|?|?|?|?|?]; simpl; try exact IH.
+  destruct m; simpl; rewrite ?IH; reflexivity.
+Qed.
+
+Section C10Limit.
+Variables (names : list bytes) (ssl : bool) (maxm : Z) (ping : bool).
+Let cfg := the_wcfg names ssl maxm ping.
+
+(* once the accumulated size has exceeded the limit the buffer is never reset, so whatever
+   arrives afterwards (more fragments, new messages, pings, a close) delivers nothing *)
+Lemma one_event_overflow e id closed st hk bs bt bd bl cc resp token ext sends auto :
+  (bl > maxm)%Z ->
+  exists closed' bs' bt' bd' bl' cc' sends' o res,
+    ws_one_event cfg wrig_get wrig_set wrig_psend e
+      (rdy id closed st hk {| wb_started := bs; wb_text := bt; wb_data := bd; wb_length := bl |} cc resp token ext sends auto) =
+    (rdy id closed' st hk {| wb_started := bs'; wb_text := bt'; wb_data := bd'; wb_length := bl' |} cc' resp token ext sends' auto, o, res)
+    /\ receives o = [] /\ (bl' > maxm)%Z.
+Proof.
+  intro G. destruct e as [t d fin|p|p|code reason rc].
+  - assert (G' : (bl >? maxm)%Z = true) by (apply Z.gtb_lt; lia).
+    unfold rdy, cfg, the_wcfg. destruct sends as [|[sd|] rest]; cbv -[Z.gtb Z.add Zlen app Z.gt]; rewrite G';
+      do 9 eexists; (split; [reflexivity|split; [reflexivity|exact G]]).
+  - destruct sends as [|[sd|] rest]; do 9 eexists; (split; [reflexivity|split; [reflexivity|exact G]]).
+  - do 9 eexists. split; [reflexivity|split; [reflexivity|exact G]].
+  - destruct rc; destruct sends as [|[sd|] rest]; destruct auto; destruct closed; destruct st;
+      do 9 eexists; (split; [reflexivity|split; [reflexivity|exact G]]).
+Qed.
+
+Theorem overflow_no_delivery : forall evs id closed st hk bs bt bd bl cc resp token ext sends auto,
+  (bl > maxm)%Z ->
+  exists closed' bs' bt' bd' bl' cc' sends' o res,
+    ws_handle_events cfg wrig_get wrig_set wrig_psend evs
+      (rdy id closed st hk {| wb_started := bs; wb_text := bt; wb_data := bd; wb_length := bl |} cc resp token ext sends auto) =
+    (rdy id closed' st hk {| wb_started := bs'; wb_text := bt'; wb_data := bd'; wb_length := bl' |} cc' resp token ext sends' auto, o, res)
+    /\ receives o = [] /\ (bl' > maxm)%Z.
+Proof.
+  induction evs as [|e rest IH]; intros id closed st hk bs bt bd bl cc resp token ext sends auto G.
+  - do 9 eexists. split; [reflexivity|split; [reflexivity|exact G]].
+  - cbn [ws_handle_events]. unfold bind.
+    destruct (one_event_overflow e id closed st hk bs bt bd bl cc resp token ext sends auto G)
+      as (c1 & s1 & t1 & d1 & l1 & cc1 & sn1 & o1 & res1 & E1 & R1 & G1).
+    rewrite E1. destruct res1 as [[|]|ex].
+    + do 9 eexists. split; [reflexivity|split; [rewrite receives_app, R1; reflexivity|exact G1]].
+    + destruct (IH id c1 st hk s1 t1 d1 l1 cc1 resp token ext sn1 auto G1)
+        as (c2 & s2 & t2 & d2 & l2 & cc2 & sn2 & o2 & res2 & E2 & R2 & G2).
+      rewrite E2. do 9 eexists. split; [reflexivity|split; [rewrite receives_app, R1, R2; reflexivity|exact G2]].
+    + do 9 eexists. split; [reflexivity|split; [exact R1|exact G1]].
+Qed.
+
+(* the message that crosses the limit is answered with close code 1009 and is not delivered *)
+Lemma crossing_the_limit id closed st hk bs bt bd bl cc resp token ext sends auto t d fin :
+  (bl <= maxm)%Z -> (bl + Zlen d > maxm)%Z ->
+  exists sends' o,
+    ws_one_event cfg wrig_get wrig_set wrig_psend (WMessage t d fin)
+      (rdy id closed st hk {| wb_started := bs; wb_text := bt; wb_data := bd; wb_length := bl |} cc resp token ext sends auto) =
+    (rdy id closed st hk (extend {| wb_started := bs; wb_text := bt; wb_data := bd; wb_length := bl |} t d) cc resp token ext sends' auto,
+     OLib [VS "ws.send"; VS "close"; VZ 1009; vnone] :: o, Ok true)
+    /\ receives o = [].
+Proof.
+  intros G0 G. assert (G' : (bl + Zlen d >? maxm)%Z = true) by (apply Z.gtb_lt; lia).
+  assert (G0' : (bl >? maxm)%Z = false) by lia.
+  unfold rdy, cfg, the_wcfg, extend. destruct sends as [|[sd|] rest]; cbv -[Z.gtb Z.add Zlen app Z.gt]; rewrite G0', G';
+    do 2 eexists; (split; [reflexivity|reflexivity]).
+Qed.
+End C10Limit.
